@@ -199,6 +199,11 @@ def viewOf (kind : Kind) (n : Nat) (xs : List Nat) (i : Input) : Except DaeErr V
       | .error e => .error e
       | .ok s => .ok { flat := col, shape := viewShape kind n xs.length, src := s, offset := i.offset }
 
+/-- the zero-row view of an empty primitive: `index[..., offset]` of an array of shape (0, k, n),
+    next to the unchecked source -/
+def emptyView (kind : Kind) (n : Nat) (i : Input) : View :=
+  { flat := [], shape := viewShape kind n 0, src := i.src, offset := i.offset }
+
 /-- what an accepted primitive exposes (`None` / `()` for what is absent) -/
 structure PrimViews where
   stride : Nat                 -- nindices
@@ -230,8 +235,16 @@ def build (kind : Kind) (t : List Input) (vcounts : List Nat) (polys : List (Lis
       if xs.length % (itemWidth kind * n) ≠ 0 then .error .malformed
       else if (kind = .polylist ∨ kind = .polygons) ∧ vc.sum ≠ xs.length / n then .error .malformed
       else if xs = [] then
-        .ok { stride := n, vcounts := vc, vertex := none, normal := none,
-              texcoord := [], textangent := [], texbinormal := [] }
+        -- empty index: vertex / normal / texcoord views exist with zero rows and NOTHING is checked
+        -- (collada/tests test_collada_empty_triangles loads such a primitive over a source of
+        -- another format); the tangent and binormal blocks are skipped altogether
+        match sel .vertex t with
+        | [] => .error (.raw "IndexError")
+        | vi :: _ =>
+          .ok { stride := n, vcounts := vc, vertex := some (emptyView kind n vi),
+                normal := (sel .normal t).head?.map (emptyView kind n),
+                texcoord := (sel .texcoord t).map (emptyView kind n),
+                textangent := [], texbinormal := [] }
       else
         match sel .vertex t with
         | [] => .error (.raw "IndexError")
